@@ -75,6 +75,41 @@ def check_seq(seq):
     return None
 
 
+def check_reuse(s, steps):
+    """Two caller-owned buffers A and B, both starting as s, passed again and again to encode/decode (a buffer that has
+    been through the codec is simply handed back to it): each call must transform exactly the buffer it was given,
+    according to that buffer's current content, whatever happened to the other one.  steps: [(0|1, 'e'|'d'), ...]"""
+    encode, decode = _fns()
+    real = [bytearray(s), bytearray(s)]
+    model = [bytes(s), bytes(s)]
+    for i, (which, op) in enumerate(steps):
+        which = int(which)
+        (encode if op == "e" else decode)(real[which])
+        model[which] = (enc_string if op == "e" else dec_string)(model[which])
+        for j in (0, 1):
+            if bytes(real[j]) != model[j]:
+                return f"buffers A=B={bytes(s).hex()}, steps {[(int(w), o) for w, o in steps]}: after step {i} buffer {'AB'[j]} holds {bytes(real[j]).hex()}, expected {model[j].hex()}"
+    return None
+
+
+def _reuse_shard(strings):
+    loader.install_shims()
+    atoms = [(w, o) for w in (0, 1) for o in ("e", "d")]
+    count, bad = 0, []
+    for s_ in strings:
+        for d in range(1, 5):
+            for steps in itertools.product(atoms, repeat=d):
+                count += 1
+                # content no earlier history of this process has used (a content-keyed memo would otherwise be settled
+                # by whichever history touched the string first)
+                tag = bytes((0x30 + count % 64, 0x30 + (count // 64) % 64))
+                for content in (bytes(s_), bytes(s_) + tag, tag + bytes(s_) + b"!"):
+                    w = check_reuse(content, steps)
+                    if w and len(bad) < 3:
+                        bad.append(({"reuse": [list(x) for x in steps], "s": content}, w))
+    return count, bad
+
+
 def _seq_shard(firsts):
     loader.install_shims()
     count, bad = 0, []
@@ -141,7 +176,13 @@ def run(tier, seed):
             bads.append((s, what))
     res3 = par.pmap(_seq_shard, [[a] for a in SEQ])
     n_seq = sum(r[0] for r in res3)
+    res4 = par.pmap(_reuse_shard, [[a] for a in SEQ])
+    n_reuse = sum(r[0] for r in res4)
+    n_seq += n_reuse
     violations = []
+    for r in res4:
+        for case, what in r[1]:
+            violations.append({"key": "string-codec:buffer-reuse", "what": what, "case": case})
     for r in res3:
         for seq, what in r[1]:
             violations.append({"key": "string-codec:sequence", "what": what, "case": {"seq": seq}})
@@ -158,6 +199,7 @@ def run(tier, seed):
         "evaluations": n_table + n_str + n_seq,
         "distinct_nontrivial": n_table + n_str + n_seq - 1,
         "call_sequences": n_seq,
+        "buffer_reuse_histories": n_reuse,
         "byte_position_table_cases": n_table,
         "max_table_len": max_table_len,
         "short_strings": n_str,
@@ -169,7 +211,7 @@ def run(tier, seed):
             "each of 3 fillers - covers byte value x position parity x length parity completely; short strings: every "
             "string over the 9-symbol boundary alphabet up to short_string_max_len; each case checks encode and decode "
             "against M2 byte-exactly, both round trips (except 0x7E), length, 0x00/0xFF counts, range mapping, in-place "
-            "mutation; call_sequences: every ordered triple of 11 strings of mixed lengths through the same oracle (hidden-state detection).  Non-trivial = every case but the empty string."
+            "mutation; call_sequences: every ordered triple of 11 strings of mixed lengths through the same oracle (hidden-state detection); buffer_reuse_histories: two caller-owned buffers with the same initial content handed back to encode/decode in every order of up to 4 calls, each compared with the composition the reference gives.  Non-trivial = every case but the empty string."
         ),
         "samples": samples,
     }
@@ -188,6 +230,8 @@ def replay(case):
         bad = kwforms.check("string")
         return bad[0] if bad else None
     loader.install_shims()
+    if "reuse" in case:
+        return check_reuse(bytes(case["s"]), [tuple(x) for x in case["reuse"]])
     if "seq" in case:
         return check_seq([bytes(x) for x in case["seq"]])
     return check_one(bytes(case["s"]))
